@@ -373,6 +373,29 @@ def oracle(case, rec):
         if ok:
             check_net(rec, net, "save_load_%s" % fmt, g, n, A, w, attrs,
                       tol=0.0 if fmt == "pickle" else TEXT_TOL)
+    # a file history: save, load, change the node weights, save in another
+    # format, load again - the second file holds the second weights
+    w2 = w * 2.0 + 1.0
+    for f1, f2 in (("gml", "graphml"), ("gml", "pickle"), ("graphml", "gml"),
+                   ("pickle", "graphmlz")):
+        fa = "chain_%s_a.%s" % (os.getpid(), f1)
+        fb = "chain_%s_b.%s" % (os.getpid(), f2)
+
+        def chain(f1=f1, f2=f2, fa=fa, fb=fb):
+            try:
+                base.save(fa, fileformat=f1)
+                mid = Network.Load(fa, fileformat=f1, silence_level=3)
+                mid.node_weights = w2.copy()
+                mid.save(fb, fileformat=f2)
+                return Network.Load(fb, fileformat=f2, silence_level=3)
+            finally:
+                for f in (fa, fb):
+                    if os.path.exists(f):
+                        os.remove(f)
+        ok, net = rec.call("chain_%s_%s_raises" % (f1, f2), chain)
+        if ok:
+            check_net(rec, net, "chain_%s_then_%s" % (f1, f2), g, n, A, w2,
+                      attrs, tol=TEXT_TOL)
     # the original must be unchanged by all of the above
     check_net(rec, base, "original_after_all_paths", g, n, A, w, attrs)
 
@@ -491,6 +514,29 @@ def oracle_spatial(case, rec):
                       "climate_save_load_%s_similarity" % fmt, rtol=0)
             rec.close(net2.grid.lat_sequence(), cnet.grid.lat_sequence(),
                       "climate_save_load_%s_grid" % fmt, rtol=0)
+    wc2 = np.asarray(wg, dtype=float) * 2.0 + 1.0
+    for f1, f2 in (("gml", "graphml"), ("gml", "pickle"), ("graphml", "gml")):
+        fa = ("cc_%d_a.%s" % (pid, f1), "cc_%d_ga.pkl" % pid,
+              "cc_%d_sa.npy" % pid)
+        fb = ("cc_%d_b.%s" % (pid, f2), "cc_%d_gb.pkl" % pid,
+              "cc_%d_sb.npy" % pid)
+
+        def cchain(f1=f1, f2=f2, fa=fa, fb=fb):
+            try:
+                cnet.save(fa, fileformat=f1)
+                mid = ClimateNetwork.Load(fa, fileformat=f1, silence_level=3)
+                mid.node_weights = wc2.copy()
+                mid.save(fb, fileformat=f2)
+                return ClimateNetwork.Load(fb, fileformat=f2,
+                                           silence_level=3)
+            finally:
+                for f in fa + fb:
+                    if os.path.exists(f):
+                        os.remove(f)
+        ok2, net2 = rec.call("climate_chain_%s_%s_raises" % (f1, f2), cchain)
+        if ok2:
+            check_net(rec, net2, "climate_chain_%s_then_%s" % (f1, f2), g, n,
+                      A, wc2, attrs, tol=2e-6)
 
 
 # -------------------------------------------------------------- generators
